@@ -245,6 +245,7 @@ pub fn run(ctx: &mut Ctx) {
         }
     }
     long_path_family(ctx);
+    incremental_family(ctx);
     // random tables with 3..4 (quick) / 4..6 (thorough) registrations, duplicates likely
     let n_rand = ctx.budget(300, 20_000) / ctx.nshards + 1;
     let mut rng: Rng = ctx.rng.fork(0xC17);
@@ -261,6 +262,126 @@ pub fn run(ctx: &mut Ctx) {
             }
         }
     }
+}
+
+/// One dispatch judged against the route map `model` ((method, full path, handler id)).
+fn judge_dispatch(router: &HttpRoutes<Log>, model: &[(usize, String, usize)], log: &Log, mi: usize, uri: &str) -> Option<(String, String)> {
+    let raw = format!("{} {} HTTP/1.1\r\n\r\n", METHODS[mi].to_str(), uri);
+    let req = Request::try_from(raw.as_bytes(), None).ok()?;
+    log.lock().unwrap().clear();
+    let resp = match guarded(|| router.handle_http_request(&req, log)) {
+        Ok(r) => r,
+        Err(p) => return Some(("panic".into(), format!("handle_http_request panicked: {}", p))),
+    };
+    let path = abs_path_model(uri);
+    let want: Option<usize> = model.iter().find(|(m, f, _)| *m == mi && f == path).map(|(_, _, id)| *id);
+    let invoked = log.lock().unwrap().clone();
+    let mut ser = Vec::new();
+    resp.write_all(&mut ser).unwrap();
+    let (srv, ctype, body, code) = match read_response(&ser) {
+        RespParse::Complete(v) => (v.header("Server").unwrap_or("").to_string(), v.header("Content-Type").unwrap_or("").to_string(), v.body.clone(), v.code),
+        _ => (String::new(), String::new(), Vec::new(), 0),
+    };
+    match want {
+        Some(id) => {
+            if invoked != vec![id] {
+                return Some(("wrong-handler".into(), format!("request {} {:?}: handlers invoked {:?}, expected exactly [{}]", METHODS[mi].to_str(), uri, invoked, id)));
+            }
+            if code != 200 || body != format!("handler-{}", id).into_bytes() {
+                return Some(("wrong-response".into(), format!("request {} {:?}: response is not the handler's (status {})", METHODS[mi].to_str(), uri, code)));
+            }
+        }
+        None => {
+            if !invoked.is_empty() {
+                return Some(("handler-invoked-for-unregistered-route".into(), format!("request {} {:?}: no route, but handlers {:?} ran", METHODS[mi].to_str(), uri, invoked)));
+            }
+            if code != 404 {
+                return Some(("not-404".into(), format!("request {} {:?}: no route but status {}", METHODS[mi].to_str(), uri, code)));
+            }
+        }
+    }
+    if srv != "srv-under-test" || ctype != "application/json" {
+        return Some(("stamp".into(), format!("Server={:?} Content-Type={:?}", srv, ctype)));
+    }
+    None
+}
+
+/// Registration and dispatch interleaved on one router: the answer to a request depends on the routes
+/// registered at that moment, not on what was asked (and missed, or hit) before.
+fn incremental_family(ctx: &mut Ctx) {
+    let n = ctx.budget(400, 20_000) / ctx.nshards + 1;
+    let mut rng: Rng = ctx.rng.fork(0xC17_1AC);
+    for _ in 0..n {
+        let prefix = *rng.pick(&PREFIXES);
+        let k = rng.range(1, 5);
+        let regs: Vec<(usize, usize)> = (0..k).map(|_| (rng.below(3), rng.below(8))).collect();
+        if incremental_case(ctx, prefix, &regs) && ctx.rep.violations_total > 10 {
+            return;
+        }
+    }
+}
+
+/// One interleaving; every choice is a function of (prefix, regs), so a replay file reproduces it.
+fn incremental_case(ctx: &mut Ctx, prefix: &str, regs: &[(usize, usize)]) -> bool {
+    if !ctx.begin() {
+        return false;
+    }
+    ctx.rep.evaluations += 1;
+    ctx.rep.count("incremental_tables");
+    let paths = paths_of(0);
+    let mut f = Fp::new().s(prefix);
+    for (m, p) in regs {
+        f = f.u((*m * 8 + *p) as u64);
+    }
+    let mut rng = Rng::new(f.0);
+    let mut router: HttpRoutes<Log> = HttpRoutes::new("srv-under-test".to_string(), prefix.to_string());
+    let mut model: Vec<(usize, String, usize)> = Vec::new();
+    let log: Log = Mutex::new(Vec::new());
+    let mut fault: Option<(String, String)> = None;
+    'steps: for (i, (m, p)) in regs.iter().enumerate() {
+        let full = format!("{}{}", prefix, paths[*p]);
+        let uri = if full.is_empty() || full.contains(' ') || rng.chance(1, 3) { format!("http://h{}", full) } else { full.clone() };
+        // before the registration: asked once or twice (a miss, or a hit on an earlier duplicate)
+        for _ in 0..rng.range(1, 2) {
+            ctx.rep.count("dispatches_before_the_registration");
+            if let Some(f) = judge_dispatch(&router, &model, &log, *m, &uri) {
+                fault = Some(f);
+                break 'steps;
+            }
+        }
+        let dup = model.iter().any(|(mm, ff, _)| mm == m && *ff == full);
+        let r = router.add_route(METHODS[*m], paths[*p].clone(), Box::new(Recorder { id: i }));
+        if r.is_ok() == dup {
+            fault = Some(("registration".into(), format!("registration #{} of ({}, {:?}) returned {:?}; it {} a duplicate", i, METHODS[*m].to_str(), full, r.is_ok(), if dup { "is" } else { "is not" })));
+            break;
+        }
+        if !dup {
+            model.push((*m, full, i));
+        }
+        ctx.rep.count("dispatches_right_after_the_registration");
+        if let Some(f) = judge_dispatch(&router, &model, &log, *m, &uri) {
+            fault = Some(f);
+            break;
+        }
+        // and the earlier routes are still in effect
+        if let Some((m0, f0, _)) = model.first().cloned() {
+            if !f0.is_empty() && !f0.contains(' ') {
+                if let Some(f) = judge_dispatch(&router, &model, &log, m0, &f0) {
+                    fault = Some(f);
+                    break;
+                }
+            }
+        }
+    }
+    if let Some((k, d)) = fault {
+        let mut c = case_json(0, prefix, regs, 0, "");
+        if let J::Obj(kv) = &mut c {
+            kv.push(("family".to_string(), J::s("incremental")));
+        }
+        ctx.rep.violation(&format!("C17:incremental:{}", k), format!("prefix {:?}, registrations interleaved with requests: {}", prefix, d), c);
+        return true;
+    }
+    false
 }
 
 /// Long paths: routes whose prefix + path has 254..514 bytes and which are prefixes of one another.
@@ -283,6 +404,10 @@ pub fn replay(ctx: &mut Ctx, case: &J) {
     ctx.only_case = None;
     let prefix = case.gs("prefix");
     let regs: Vec<(usize, usize)> = case.garr("regs_idx").iter().filter_map(|x| x.as_u64()).map(|x| ((x / 8) as usize, (x % 8) as usize)).collect();
+    if case.gs("family") == "incremental" {
+        incremental_case(ctx, &prefix, &regs);
+        return;
+    }
     let uri = case.gs("request_uri");
     let m = case.gu("request_method") as usize;
     println!("prefix {:?} registrations {:?} request {} {:?}", prefix, regs, METHODS[m.min(2)].to_str(), uri);
